@@ -5,6 +5,7 @@ from psa import cfg as cfgmod
 from psa import model
 from psa.model import own_nodes, own_nodes_of, src, CallRec
 from psa.rules import common as C
+from psa.rules import c05
 
 EXPLANATION = (
     "Static rules R16.1-R16.4 over the resolved program model: (R16.1) the "
@@ -175,6 +176,29 @@ def run(ctx, R):
             d = prog.dotted(lr.module, n.func, lr)
             if d and d.endswith('.list_rules'):
                 chained.add(d.rsplit('.', 1)[0])
+            elif isinstance(n.func, ast.Attribute) and n.func.attr == \
+                    'list_rules' and isinstance(n.func.value, ast.Name):
+                # <m>.list_rules() for m in <constant collection of the
+                # policy modules>
+                it = None
+                for x in ast.walk(lr.node):
+                    gens = x.generators if isinstance(x, (
+                        ast.GeneratorExp, ast.ListComp, ast.SetComp)) else (
+                        [x] if isinstance(x, ast.For) else [])
+                    for g_ in gens:
+                        if isinstance(g_.target, ast.Name) and \
+                                g_.target.id == n.func.value.id:
+                            it = g_.iter
+                dd = prog.dotted(lr.module, it, lr) if it is not None \
+                    else None
+                if dd and '.' in dd:
+                    try:
+                        val = prog.const(*dd.rsplit('.', 1))
+                    except model.AnalysisError:
+                        val = None
+                    for v in val if isinstance(val, (list, tuple)) else []:
+                        if isinstance(v, model._ModRef):
+                            chained.add(v.name)
     for pm in POLICY_MODULES + ['base']:
         mn = 'placement.policies.%s' % pm
         R.ob('R16.1', 'list_rules:%s' % pm, mn in chained,
@@ -478,14 +502,28 @@ def _auth_rules(ctx, R):
         if ifs:
             found = src(ifs[0][0].test)
             t = ifs[0][0].test
+            reqn = (f.params + [None, None])[1]
             ok = isinstance(t, ast.Compare) and len(t.ops) == 1 and \
                 isinstance(t.ops[0], ast.NotIn) and isinstance(
                     t.left, ast.Constant) and t.left.value == \
                 'X-Auth-Token' and isinstance(
                     t.comparators[0], ast.Attribute) and \
                 t.comparators[0].attr == 'headers' and src(
-                    t.comparators[0].value) == (f.params + [None, None])[1] \
+                    t.comparators[0].value) == reqn \
                 and ifs[0][1] == 'body'
+            # ... or: <v> = <req>.headers.get('X-Auth-Token'); if <v> is None
+            if not ok and isinstance(t, ast.Compare) and len(
+                    t.ops) == 1 and isinstance(t.ops[0], ast.Is) and src(
+                        t.comparators[0]) == 'None' and isinstance(
+                            t.left, ast.Name) and ifs[0][1] == 'body':
+                d = c05.single_def(f, t.left.id)
+                v = d.value if d is not None else None
+                ok = isinstance(v, ast.Call) and isinstance(
+                    v.func, ast.Attribute) and v.func.attr == 'get' and src(
+                        v.func.value) == '%s.headers' % reqn and len(
+                            v.args) == 1 and isinstance(
+                                v.args[0], ast.Constant) and \
+                    v.args[0].value == 'X-Auth-Token'
         # every return of the application other than the root short-cut is
         # after the token test
         g = cfgmod.cfg_of(f)
@@ -552,10 +590,22 @@ def _can_shape(ctx, R):
     sw = True
     for n in own_nodes(f.node):
         if isinstance(n, ast.ExceptHandler):
-            body = n.body
-            sw = len(body) == 2 and isinstance(body[0], ast.If) and src(
-                body[0].test) == fparam and isinstance(
-                    body[0].body[0], ast.Raise) and not body[0].orelse
+            # every way out of the handler that is not the bare re-raise
+            # runs under the literal "not <fatal>", and a re-raise exists
+            outs = [x for x in own_nodes_of(n) if isinstance(x, ast.Return)]
+            rer = [x for x in own_nodes_of(n) if isinstance(x, ast.Raise)
+                   and x.exc is None]
+            sw = bool(rer) and not C._terminates(n.body) is False
+            for x in outs:
+                ls = [(ast.unparse(e), p)
+                      for e, p in C.conds(x, n, implicit=True)]
+                if (fparam, False) not in ls:
+                    sw = False
+            for x in rer:
+                ls = [(ast.unparse(e), p)
+                      for e, p in C.conds(x, n, implicit=True)]
+                if any(t != fparam or not p for t, p in ls):
+                    sw = False
     R.ob('R16.4', 'can:reraise', sw,
          'PolicyNotAuthorized is swallowed only when fatal is false',
          'handler shape', func=f)
